@@ -90,6 +90,7 @@ Proof.
   intros Hw Hc Wr. set (b := enc v ++ rest).
   assert (Wb : wf b) by (apply wf_app; [exact (enc_wf v t Hw)|exact Wr]).
   unfold bs_next, bs_next_depth. rewrite depth_ok. change (bs_b (bs_new b)) with b.
+  change {| bs_b := b; bs_n := 0 |} with (bs_new b).
   assert (HR : bsx_rep b (bs_new b) (enc v ++ rest)).
   { unfold bsx_rep, bs_new. cbn [bs_b bs_n]. repeat split; try assumption; try lia. }
   destruct (tskip_exact bs_state bs_skipN (bsx_rep b) (bsx_SN_ok b) (bsx_rep_wf b)
